@@ -164,6 +164,14 @@ static int URI_FUNC(RemoveBaseUriImpl)(URI_TYPE(Uri) * dest,
 					/* NOOP */
 	/* [07/50]	   if (A.authority != Base.authority) then */
 					if (!URI_FUNC(EqualsAuthority)(absSource, absBase)) {
+						/* A source without authority cannot be expressed relative
+						 * to a base that has one unless the scheme is kept: every
+						 * reference without scheme inherits the base's authority,
+						 * and the bare path (e.g. "a:b/" for source "s:a:b/")
+						 * could be read back as having a scheme of its own */
+						if (!URI_FUNC(IsHostSet)(absSource)) {
+							dest->scheme = absSource->scheme;
+						}
 	/* [08/50]	      T.authority = A.authority; */
 						if (!URI_FUNC(CopyAuthority)(dest, absSource, memory)) {
 							return URI_ERROR_MALLOC;
